@@ -73,6 +73,9 @@ func buildTvDag(kids map[string][]string, order []string, alias string) *tvDag {
 			if i == 1 {
 				size = 16348
 			}
+			if i == 3 && len(kids[order[0]])%2 == 0 {
+				size = 0 // an empty block: a section of varint + CID only
+			}
 			b = detBytes("raw leaf "+n, size)
 			codec = cid.Raw
 		} else {
